@@ -199,7 +199,10 @@ func worker(args []string) int {
 			if i < 0 {
 				continue
 			}
-			if time.Since(time.Unix(0, curStart.Load())) > runTimeout {
+			var ms runtime.MemStats
+			runtime.ReadMemStats(&ms)
+			tooBig := ms.HeapAlloc > 6<<30
+			if tooBig || time.Since(time.Unix(0, curStart.Load())) > runTimeout {
 				rf := &replayFile{Property: id, VerifSeed: seed, RunIndex: int(i), RunSeed: runSeed(seed, id, int(i)), Tier: string(tier), Class: "watchdog/run-exceeded-" + runTimeout.String(), Msg: "a single simulated run did not finish within the wall-clock watchdog"}
 				b, _ := json.MarshalIndent(rf, "", " ")
 				path := filepath.Join(outDir(), "replays", fmt.Sprintf("%s-%d-%d-hang.json", id, seed, i))
@@ -925,27 +928,27 @@ func master(id string, tier checks.Tier) int {
 		runsPerHour = float64(total.Execs) / wall * 3600
 	}
 	cov := map[string]any{
-		"evaluations":                 total.Execs,
-		"distinct_nontrivial":         len(sigs),
-		"rule":                        ck.Rule(),
-		"samples":                     total.Samples,
-		"seeded_runs":                 total.Runs,
-		"nontrivial_runs":             total.NonTrivial,
-		"undecidable_scenarios":       total.Skipped,
-		"undecidable_reasons":         total.SkipReasons,
-		"simulated_time_seam_events":  total.Events,
-		"executions_per_hour":         int(runsPerHour),
-		"seeds":                       fmt.Sprintf("VERIF_SEED=%d; run i uses mix(VERIF_SEED, %q, i), i in [0,%d)", seed, id, N),
-		"fault_kinds_fired":           total.Fired,
-		"probes":                      total.Probes,
-		"probes_stuck_at_zero":        stuck,
-		"distinct_measure":            "distinct abstract trace signatures (FNV over op kinds/classes/outcomes and the sequence of seam events (kind, outcome, task); CIDs and sizes abstracted)",
-		"components":                  ck.RealStub(),
-		"workers":                     W,
-		"exhaustive":                  false,
-		"known_findings_seen":         len(knownPrinted),
-		"regression_replays_run":      regressRun,
-		"extra":                       total.Extra,
+		"evaluations":                total.Execs,
+		"distinct_nontrivial":        len(sigs),
+		"rule":                       ck.Rule(),
+		"samples":                    total.Samples,
+		"seeded_runs":                total.Runs,
+		"nontrivial_runs":            total.NonTrivial,
+		"undecidable_scenarios":      total.Skipped,
+		"undecidable_reasons":        total.SkipReasons,
+		"simulated_time_seam_events": total.Events,
+		"executions_per_hour":        int(runsPerHour),
+		"seeds":                      fmt.Sprintf("VERIF_SEED=%d; run i uses mix(VERIF_SEED, %q, i), i in [0,%d)", seed, id, N),
+		"fault_kinds_fired":          total.Fired,
+		"probes":                     total.Probes,
+		"probes_stuck_at_zero":       stuck,
+		"distinct_measure":           "distinct abstract trace signatures (FNV over op kinds/classes/outcomes and the sequence of seam events (kind, outcome, task); CIDs and sizes abstracted)",
+		"components":                 ck.RealStub(),
+		"workers":                    W,
+		"exhaustive":                 false,
+		"known_findings_seen":        len(knownPrinted),
+		"regression_replays_run":     regressRun,
+		"extra":                      total.Extra,
 	}
 	ev := map[string]any{
 		"property_id": id,
